@@ -244,6 +244,7 @@ def run(ctx):
     # ---------------- leftmost / rightmost (used by the all-variants and by the search ranges)
     quant_rule(ctx, model)
     setsubj_rule(ctx, model)
+    setlaw_rule(ctx, model)
     wrap_rule(ctx)
     handlefree_rule(ctx, model)
     r_ext = ctx.rule("C13.EXTREME", "TextSelectionSet::leftmost / rightmost return an item with the smallest begin / largest end, for sorted and unsorted sets (all sets up to 3 items over 0..3)")
@@ -666,3 +667,92 @@ def handlefree_rule(ctx, model, rid="C13.HANDLEFREE"):
         if bad:
             ctx.report(r, key, "%r between the ranges %s and %s answers %s when neither operand carries a handle and %s when %s: the relation depends on whether a selection is known to the store, not only on the ranges" % (op, bad[0], bad[1], bad[4], bad[5], "both do" if bad[2] and bad[3] else "the first does" if bad[2] else "the second does"), fn.file, fn.line)
     ctx.floor(r, n, 500, "evaluations with and without handles")
+
+
+
+# ---------------------------------------------------------------------- SETLAW
+def setlaw_rule(ctx, model, rid="C13.SETLAW"):
+    """the laws the property states for *sets*: embeds / embedded, before / after, precedes / succeeds are converses,
+    equals and overlaps are symmetric, equals implies embeds, embedded, same begin and same end - evaluated on the
+    extracted set-against-set test for all pairs of sets with one or two members over 0..2.  (LAW decides them for
+    pairs of ranges, SINGLETON ties one-member sets to their members; this is the remainder.)"""
+    from formula import OpVal, Unknown, Panic
+    r = ctx.rule(rid, "converse, symmetry and implication laws hold for the set-against-set test on all pairs of sets with one or two members")
+    fn = model.f_set_test_set
+    ctx.functions_analysed.add(fn.qual)
+    ivs = [(b, e) for b in range(3) for e in range(b, 3)]
+    sets = [[a] for a in ivs] + [[a, b] for i, a in enumerate(ivs) for b in ivs[i + 1:]]
+
+    def base(variant, **kw):
+        flds = {}
+        for f, t in model.variants[variant].items():
+            flds[f] = False if t == "bool" else None
+        flds.update(kw)
+        return OpVal(variant, flds)
+
+    def T(op, A, B):
+        return model.call(fn, [model.interval(*a) for a in A], [op, [model.interval(*b) for b in B], "RESOURCE"], True)[0]
+    n = 0
+
+    def law(key, name, pred):
+        nonlocal n
+        r.obligations += 1
+        try:
+            for A in sets:
+                for B in sets:
+                    n += 1
+                    cx = pred(A, B)
+                    if cx:
+                        r.hit(key, sample={"law": name, "first_counterexample": {"A": A, "B": B, "detail": cx}})
+                        ctx.report(r, key, "%s fails for the sets A=%s B=%s (%s): the set-level test asks that every member of the subject has a partner in the other set, which is not a relation with a converse" % (name, A, B, cx), fn.file, fn.line, {"A": A, "B": B})
+                        return
+        except Panic:
+            return   # reported by SUB / EXH
+        except Unknown as u:
+            r.unknown += 1
+            ctx.report(r, "uninterpretable:" + key, "law %s cannot be evaluated on sets (%s)" % (name, u), fn.file, fn.line)
+            return
+        r.hit(key, sample={"law": name})
+        r.discharged += 1
+    for allv in (False, True):
+        for a, b in CONVERSE:
+            if a not in model.variants or b not in model.variants or ("all" not in model.variants[a] and allv):
+                continue
+            kw = {"all": allv} if "all" in model.variants[a] else {}
+            oa, ob = base(a, **kw), base(b, **kw)
+            law("converse:%s/%s:all=%s" % (a, b, fmt(allv)), "%s(A,B) == %s(B,A)%s" % (a, b, " with `all`" if allv else ""),
+                lambda A, B, oa=oa, ob=ob: None if T(oa, A, B) == T(ob, B, A) else "%s against %s" % (T(oa, A, B), T(ob, B, A)))
+        for a in SYMMETRIC:
+            if "all" not in model.variants[a] and allv:
+                continue
+            kw = {"all": allv} if "all" in model.variants[a] else {}
+            oa = base(a, **kw)
+            law("symmetric:%s:all=%s" % (a, fmt(allv)), "%s(A,B) == %s(B,A)%s" % (a, a, " with `all`" if allv else ""),
+                lambda A, B, oa=oa: None if T(oa, A, B) == T(oa, B, A) else "%s against %s" % (T(oa, A, B), T(oa, B, A)))
+    for a, b in IMPLIES:
+        oa, ob = base(a), base(b)
+        law("implies:%s=>%s" % (a, b), "%s(A,B) implies %s(A,B)" % (a, b),
+            lambda A, B, oa=oa, ob=ob: None if (T(oa, A, B) is not True) or T(ob, A, B) is True else "%s holds, %s does not" % (a, b))
+    # a negated relation is the exact complement - also for the empty set as subject
+    r.obligations += 1
+    failing = []
+    try:
+        for op in model.opvalues((None,)):
+            if op.fields.get("negate") or "negate" not in op.fields:
+                continue
+            nop = OpVal(op.variant, dict(op.fields, negate=True))
+            for B in sets[:8]:
+                n += 1
+                sel = model.interval(*B[0])
+                if T(op, [], B) == T(nop, [], B) or model.call(model.f_set_test, [], [op, sel, "RESOURCE"], True)[0] == model.call(model.f_set_test, [], [nop, sel, "RESOURCE"], True)[0]:
+                    failing.append("%s{all:%s}" % (op.variant, fmt(bool(op.fields.get("all")))))
+                    break
+        r.hit("negation:empty-subject", sample={"operators_that_answer_the_same_with_and_without_negate": failing})
+        if failing:
+            ctx.report(r, "negation:empty-subject", "with the empty set as subject the set-level tests (against a selection, against a set) answer false for the relation and for its negation (%s): the early return for an empty subject comes before the negation is applied, so a negated relation is not the complement there" % ", ".join(failing[:6]), fn.file, fn.line)
+        else:
+            r.discharged += 1
+    except (Unknown, Panic) as u:
+        r.unknown += 1
+        ctx.report(r, "uninterpretable:negation:empty-subject", "the test cannot be evaluated on an empty subject set (%s)" % u, fn.file, fn.line)
+    ctx.floor(r, n, 2000, "set pair evaluations")
